@@ -3534,21 +3534,10 @@ class NetCDFRead(IORead):
 
             # Take add_offset and scale_factor out of the data
             # variable's properties since they will be dealt with by
-            # the variable's Data object. Makes sure we note that they
-            # were there so we can adjust the field's data type
-            # accordingly.
-            values = [
+            # the variable's Data object (`_create_netcdfarray` works
+            # out the data type of the unpacked data).
+            for k in ("add_offset", "scale_factor"):
                 field_properties.pop(k, None)
-                for k in ("add_offset", "scale_factor")
-            ]
-            unpacked_dtype = values != [None, None]
-            if unpacked_dtype:
-                try:
-                    values.remove(None)
-                except ValueError:
-                    pass
-
-                unpacked_dtype = np.result_type(*values)
 
         # Initialise node_coordinates_as_bounds
         g["node_coordinates_as_bounds"] = set()
@@ -3776,9 +3765,7 @@ class NetCDFRead(IORead):
         # Add the data to the field
         # ------------------------------------------------------------
         if field:
-            data = self._create_data(
-                field_ncvar, f, unpacked_dtype=unpacked_dtype
-            )
+            data = self._create_data(field_ncvar, f)
             logger.detail(
                 f"        [d] Inserting field {data.__class__.__name__}"
                 f"{data.shape}"
@@ -6242,6 +6229,8 @@ class NetCDFRead(IORead):
             ncvar: `str`
 
             unpacked_dtype: `False` or `numpy.dtype`, optional
+                Ignored. The data type of the unpacked data is worked
+                out from the netCDF variable's own attributes.
 
             coord_ncvar: `str`, optional
 
@@ -6291,11 +6280,13 @@ class NetCDFRead(IORead):
             # presented in the native byte order.
             dtype = dtype.newbyteorder("=")
 
-        if dtype is not None and unpacked_dtype is not False and g["unpack"]:
+        if dtype is not None and g["unpack"]:
             # The data type after unpacking. (When the data are not
             # to be unpacked, their data type is that of the netCDF
             # variable.)
-            dtype = np.result_type(dtype, unpacked_dtype)
+            dtype = self._unpacked_dtype(
+                dtype, g["variable_attributes"][ncvar]
+            )
 
         ndim = variable.ndim
         shape = variable.shape
@@ -6352,6 +6343,71 @@ class NetCDFRead(IORead):
 
         return array, kwargs
 
+    def _unpacked_dtype(self, dtype, attributes):
+        """The data type of a variable's data after unpacking.
+
+        This is the data type of the arrays that `netcdf_indexer`
+        returns for the variable when it unpacks: signed integers
+        with ``_Unsigned`` set to ``'true'`` are viewed as unsigned
+        integers, and ``scale_factor`` and ``add_offset`` promote the
+        data type exactly as `netcdf_indexer._unpack` does.
+
+        .. versionadded:: (cfdm) NEXTVERSION
+
+        :Parameters:
+
+            dtype: `numpy.dtype`
+                The data type of the netCDF variable.
+
+            attributes: `dict`
+                The attributes of the netCDF variable.
+
+        :Returns:
+
+            `numpy.dtype`
+                The data type of the unpacked data.
+
+        """
+        if dtype.kind not in "iuf":
+            return dtype
+
+        if dtype.kind == "i" and attributes.get("_Unsigned") in (
+            "true",
+            "True",
+        ):
+            dtype = np.dtype(f"u{dtype.itemsize}")
+
+        values = []
+        for attr, neutral in (("scale_factor", 1.0), ("add_offset", 0.0)):
+            value = attributes.get(attr)
+            if value is None:
+                continue
+
+            value = np.array(value)
+            if value.ndim == 1:
+                value = value[0]
+
+            try:
+                float(value)
+            except (TypeError, ValueError):
+                # Not a number, so no unpacking is done
+                return dtype
+
+            values.append((value, neutral))
+
+        if not values:
+            return dtype
+
+        if all(value == neutral for value, neutral in values):
+            # Unpacking changes no values: the data are cast to the
+            # data type of scale_factor, or else of add_offset
+            return values[0][0].dtype
+
+        for value, _ in values:
+            dtype = np.result_type(dtype, value.dtype)
+
+        return dtype
+
     def _create_data(
         self,
         ncvar,
@@ -6374,6 +6430,8 @@ class NetCDFRead(IORead):
             construct: optional
 
             unpacked_dtype: `False` or `numpy.dtype`, optional
+                Ignored. The data type of the unpacked data is worked
+                out from the netCDF variable's own attributes.
 
             uncompress_override: `bool`, optional
 
